@@ -348,8 +348,9 @@ def run_e2_once(name, names, body, pre=None, positive=(), expect_raise=None, max
                 break
         if not done:
             unreproduced.append(dict(claim=cname, witness=_jsonable(d["witness"]), detail=d["detail"]))
-            if cname.startswith("outcome:"):
-                # the code raised (or produced a non-finite value) in the model but not on float64 at any of the witnesses: the model
+            if cname.startswith("outcome:raise"):
+                # the code raised in the model but not on float64 at any of the witnesses (a division by an exact zero that floats
+                # only approach, outcome:nonfinite, is a legitimate difference and stays "unreproduced"): the model
                 # does not follow the code (e.g. a numpy function the shim lacks) - a harness error, never a silent pass
                 harness_errors.append("model/real disagreement: %s in the model (%s) is not reproduced by the float64 code" % (cname, (d["detail"] or "")[-160:].replace("\n", " ")))
     # translator validation: at the sample point of explored paths the real float64 code must agree with
